@@ -2,7 +2,8 @@
     num <base> <hex>      -> "ok <bits16>" | "err"
     i64 <hex> / u64 <hex> -> "ok <dec>" | "err"
     p17 <bits16>          -> "<text> x5 <bits16 read back>"
-    pint <bits16>         -> "<text> x12 <bits16 read back>"      (integer-valued double, |x| <= 2^53)
+    pint <bits16>         -> "<text> x12 <bits16 read back>"
+    pstr <bits16>         -> "<string text> <describe text>"   (number_to_string_b on any finite double)      (integer-valued double, |x| <= 2^53)
     s64rt <dec> / u64rt <dec> -> "<text> ok <dec>" | "<text> err"
     big <base> <ex> <hex> -> "n first d0 d1 ..."   (digit array after the scaling loops of convert)
 -/
@@ -60,8 +61,13 @@ def step (_ : Unit) (toks : List String) : Unit × String :=
       let (m, e) := decodeBits (bits % 0x8000000000000000)
       let v := if e ≥ 0 then m <<< e.toNat else m >>> (-e).toNat
       let t := if v = 0 then "0" else (if neg then "-" else "") ++ toString v
+      let ts := String.ofList (numberToString bits)      -- string / describe / %v / %q / %p go through number_to_string_b
       let tj := if v = 0 ∧ neg then "-0" else t   -- jdn keeps the sign of zero
-      ((), String.intercalate " " [t, t, t, t, t, tj, t, t, t, t, tj, t] ++ " " ++ showScan (scanNumberBase (bytesOf t) 0))
+      ((), String.intercalate " " [ts, ts, ts, ts, ts, tj, ts, ts, ts, ts, tj, t] ++ " " ++ showScan (scanNumberBase (bytesOf t) 0))
+    | none => ((), "bad-op")
+  | ["pstr", h] =>
+    match parseHexNat h with
+    | some bits => let ts := String.ofList (numberToString bits); ((), ts ++ " " ++ ts)
     | none => ((), "bad-op")
   | ["s64rt", d] =>
     match d.toInt? with
